@@ -214,7 +214,26 @@ def replay_localeinfo(prop, result, fresh, wd, info):
     return False
 
 
-HOOKS = {'localeinfo': replay_localeinfo, 'resource': replay_resource, 'ringbuffer': replay_ringbuffer, 'array': replay_array, 'arrayb': replay_array}
+def replay_thread(prop, result, fresh, wd, info):
+    exe = os.path.join(wd, 'thr_replay')
+    cmd = ['g++', '-std=c++20', '-g', '-O0', '-fsanitize=address', '-isystem', os.path.join(ROOT, 'replay', 'shim'), '-I', os.path.join(REPO, 'include'),
+           '-I', REPO, os.path.join(ROOT, 'replay', 'thr_replay.cpp'), '-o', exe, '-lpthread']
+    rc, out = _run(cmd, timeout=600)
+    if rc != 0:
+        info['native'] = 'replay driver does not build against the current tree: ' + out[-1500:]
+        return False
+    env = dict(os.environ, ASAN_OPTIONS='detect_stack_use_after_return=1:detect_leaks=0')
+    for sc in ('fp', 'big'):
+        rc, o = _run(['timeout', '30', exe, sc], timeout=60, env=env)
+        if rc != 0 and ('CONFIRMED' in o or 'ERROR: AddressSanitizer' in o):
+            info['native'] = {'schedule': 'new thread scheduled 100 ms after start() returned (shim <thread>), callable kind ' + sc, 'outcome': 'CONFIRMED',
+                              'output': '\n'.join([l for l in o.split('\n') if 'CONFIRMED' in l or 'ERROR' in l][:3])}
+            return True
+    info['native'] = {'outcome': 'NOT-REPRODUCED', 'tried': 'late-scheduled thread with a function pointer and with a 64-byte callable'}
+    return False
+
+
+HOOKS = {'thread': replay_thread, 'localeinfo': replay_localeinfo, 'resource': replay_resource, 'ringbuffer': replay_ringbuffer, 'array': replay_array, 'arrayb': replay_array}
 
 
 def make_replay(prop, result, fresh, wd, tier):
